@@ -120,6 +120,7 @@ ALL="none hoist-temreceipt gas-accumulator completion-order map-order-receipts w
 rc=0
 for m in $ALL; do
   gen "$m" || { echo "MUTANT $m: generation failed"; rc=2; continue; }
+  [ -n "${C05_MUT_GEN_ONLY:-}" ] && { echo "MUTANT $m: overlay generated"; continue; }
   ( cd "$ROOT" && go build -tags verif -overlay "$W/$m/overlay.json" -o "$W/$m/bin" ./props/c05 ) || { echo "MUTANT $m: does not compile"; rc=2; continue; }
   mkdir -p "$W/$m/root"
   # the mutant run must not be excused by the known-findings file of the real tree
